@@ -1407,14 +1407,22 @@ func c08Loop(c *Ctx, p *Prog) {
 					}
 				}
 			})
-			if reused != nil {
+			if rv, d, okT := armedTimerWait(f); okT && reused == nil {
+				sleep, delayArg = rv, d
+			}
+			if sleep != nil {
+				c.OK("C08.L", "site:agent.pollForNewRequests:call time.Sleep", p, sleep.Pos(), "the back-off wait is a receive from a timer that is armed (NewTimer or Reset, same duration) on every path to the receive and re-armed only after its tick was received")
+			} else if reused != nil {
 				c.Bad("C08.L", "site:agent.pollForNewRequests:delay", p, reused.Pos(), "the back-off wait receives from a timer that is re-armed with Reset (or shared between iterations): a tick left in its channel — the creation tick of NewTimer(0), or one that fired during the previous attempt — ends the next wait at once, so failed polls are not followed by the back-off delay")
 				return
 			}
-			c.Unk("C08.L", "site:agent.pollForNewRequests:delay", p, f.Pos(), "neither a time.Sleep call nor a select on a fresh timer found in agent.pollForNewRequests: the rule cannot identify the back-off wait")
-			return
+			if sleep == nil {
+				c.Unk("C08.L", "site:agent.pollForNewRequests:delay", p, f.Pos(), "neither a time.Sleep call nor a select on a fresh timer found in agent.pollForNewRequests: the rule cannot identify the back-off wait")
+				return
+			}
+		} else {
+			c.OK("C08.L", "site:agent.pollForNewRequests:call time.Sleep", p, sleep.Pos(), "the back-off wait is a select on a fresh timer and the polling context")
 		}
-		c.OK("C08.L", "site:agent.pollForNewRequests:call time.Sleep", p, sleep.Pos(), "the back-off wait is a select on a fresh timer and the polling context")
 	} else {
 		sleep = c.UniqueCall("C08.L", p, f, false, "time.Sleep")
 		if sleep != nil {
@@ -1921,4 +1929,157 @@ func literalLenOfGlobal(p *Prog, g *ssa.Global) (int64, bool) {
 		})
 	}
 	return n, ok && n >= 0
+}
+
+// armedTimerWait recognises the drained, re-armed timer as a wait: one plain receive from the C
+// of a *time.Timer kept in a local variable, such that (1) it is the only channel operation on
+// that timer, (2) every path from the function's entry, and from the receive itself, to the
+// receive passes an arming — time.NewTimer(d) stored into the variable or Reset(d) on it — and
+// every path from one arming to another passes the receive (so Reset only ever runs on a timer
+// whose tick was consumed: no stale tick can end a later wait at once), (3) all armings use the
+// same duration value, (4) Stop is only called from deferred code.
+func armedTimerWait(f *ssa.Function) (ssa.Instruction, ssa.Value, bool) {
+	var recv *ssa.UnOp
+	var cell *ssa.Alloc
+	nrecv := 0
+	timerCell := func(v ssa.Value) *ssa.Alloc {
+		// v is the *time.Timer value: a load of the local variable
+		ld, ok := v.(*ssa.UnOp)
+		if !ok || ld.Op != token.MUL {
+			return nil
+		}
+		a, _ := ld.X.(*ssa.Alloc)
+		if a == nil {
+			if fv, isFV := ld.X.(*ssa.FreeVar); isFV {
+				if b, isA := FreeVarBinding(fv).(*ssa.Alloc); isA {
+					a = b
+				}
+			}
+		}
+		return a
+	}
+	for _, b := range f.Blocks {
+		for _, in := range b.Instrs {
+			u, ok := in.(*ssa.UnOp)
+			if !ok || u.Op != token.ARROW {
+				continue
+			}
+			base, fld, okF := FieldLoad(u.X)
+			if !okF || fld != "C" || NamedType(base.Type()) != "time.Timer" {
+				continue
+			}
+			nrecv++
+			recv = u
+			cell = timerCell(base)
+		}
+	}
+	if nrecv != 1 || cell == nil || cell.Parent() != f {
+		return nil, nil, false
+	}
+	var arms []ssa.Instruction
+	var delay ssa.Value
+	same := true
+	note := func(i ssa.Instruction, d ssa.Value) {
+		arms = append(arms, i)
+		if delay == nil {
+			delay = d
+		} else if delay != d {
+			same = false
+		}
+	}
+	okUses := true
+	for _, r := range Refs(cell) {
+		switch x := r.(type) {
+		case *ssa.DebugRef:
+		case *ssa.Store:
+			if x.Addr != ssa.Value(cell) {
+				okUses = false
+				continue
+			}
+			if IsNilConst(x.Val) {
+				continue
+			}
+			nt := CallResult(x.Val, 0, "time.NewTimer")
+			if nt == nil {
+				okUses = false
+				continue
+			}
+			note(x, nt.Call.Args[0])
+		case *ssa.UnOp:
+			for _, u := range Refs(x) {
+				switch y := u.(type) {
+				case *ssa.DebugRef:
+				case *ssa.BinOp: // nil test
+				case *ssa.FieldAddr:
+					if fieldName(y.X.Type(), y.Field) != "C" {
+						okUses = false
+					}
+				case ssa.CallInstruction:
+					switch CalleeName(y.Common()) {
+					case "(*time.Timer).Reset":
+						if y.Parent() != f {
+							okUses = false
+						} else {
+							note(y, y.Common().Args[1])
+						}
+					case "(*time.Timer).Stop":
+						if _, isDefer := y.(*ssa.Defer); !isDefer && y.Parent() == f {
+							okUses = false
+						}
+					default:
+						okUses = false
+					}
+				default:
+					okUses = false
+				}
+			}
+		case *ssa.MakeClosure:
+			// captured by deferred clean-up only: its uses are checked through the free variable's loads
+			fn, _ := x.Fn.(*ssa.Function)
+			if fn == nil {
+				okUses = false
+				continue
+			}
+			for _, call := range Calls(fn, "(*time.Timer).Reset", "time.NewTimer") {
+				_ = call
+				okUses = false
+			}
+			for _, rr := range Refs(x) {
+				if _, isDefer := rr.(*ssa.Defer); !isDefer {
+					if _, isDbg := rr.(*ssa.DebugRef); !isDbg {
+						okUses = false
+					}
+				}
+			}
+		default:
+			okUses = false
+		}
+	}
+	if !okUses || !same || len(arms) == 0 || delay == nil {
+		return nil, nil, false
+	}
+	isArm := func(i ssa.Instruction) bool {
+		for _, a := range arms {
+			if a == i {
+				return true
+			}
+		}
+		return false
+	}
+	isRecv := func(i ssa.Instruction) bool { return i == ssa.Instruction(recv) }
+	// entry -> receive without arming
+	if h, _ := (&Walk{Target: isRecv, Avoid: isArm, Local: true}).FromBlock(f.Blocks[0]); h != nil {
+		return nil, nil, false
+	}
+	// receive -> receive without arming
+	if h, _ := (&Walk{Target: isRecv, Avoid: isArm, Local: true}).FromInstr(recv); h != nil {
+		return nil, nil, false
+	}
+	// arming -> arming without the receive
+	for _, a := range arms {
+		if h, _ := (&Walk{Target: isArm, Avoid: isRecv, Local: true}).FromInstr(a); h != nil {
+			return nil, nil, false
+		}
+	}
+	return recv, delay, true
 }
